@@ -274,6 +274,15 @@ def unboundE {α : Type} (x : Option α) : Except Err α :=
 @[simp] theorem unboundE_some {α : Type} (a : α) : unboundE (some a) = .ok a := rfl
 @[simp] theorem unboundE_none {α : Type} : unboundE (none : Option α) = .error .unbound := rfl
 
+/-- a value that must not be `None` where it is used (`bytearray.extend(None)`: TypeError) -/
+def someE {α : Type} (e : Err) (x : Option α) : Except Err α :=
+  match x with
+  | none => .error e
+  | some a => .ok a
+
+@[simp] theorem someE_some {α : Type} (e : Err) (a : α) : someE e (some a) = .ok a := rfl
+@[simp] theorem someE_none {α : Type} (e : Err) : someE e (none : Option α) = .error e := rfl
+
 /-! ### loops -/
 
 /-- `range(a, b)` -/
